@@ -156,6 +156,10 @@ def prop_runs(rng, n_random, kinds_per_class):
                                                  [0, 2 * SEC])
     cls['beyond 10^8 ms, fractions'] = cross([top - 1, top - MS, top - 500 * MS] +
                                              [rng.randrange(lim, top + 1) for _ in range(max(2, n_random // 8))], [0, 2 * SEC])
+    # beyond 10^8 seconds (3.17 years) the client has to count in minutes, beyond 10^8 minutes (190 years) in hours
+    s8, m8 = 10**8 * SEC, 10**8 * 60 * SEC
+    cls['beyond 10^8 s: minutes and hours'] = cross([s8 - SEC, s8, s8 + SEC, s8 + 60 * SEC, 3 * 10**4 * HOUR + 1, 10**5 * HOUR, m8 - 60 * SEC, m8, m8 + 1,
+                                                    m8 + 60 * SEC, m8 + HOUR, 17 * 10**5 * HOUR + 59 * 60 * SEC, 25 * 10**5 * HOUR], [0, 2 * SEC])
     rnd = []
     for _ in range(n_random):
         mag = rng.uniform(0, 16.556)     # log-uniform over 1 ns .. 10^4 h
